@@ -775,6 +775,16 @@ def run_write(spec, ctx):
                     ctx.count("write_events_checked")
                     if not within(os.path.join(os.getcwd(), str(tgt)), out):
                         bad.append((ev[0], str(tgt)))
+            # what escaped from the scratch area altogether is removed again (recognised by the unique name of this run's
+            # scratch directory among its path components - nothing else is ever deleted)
+            mark = os.path.basename(base)
+            for how, p in bad:
+                parts = os.path.abspath(os.path.join(os.getcwd(), p)).split(os.sep)
+                if mark in parts:
+                    top = os.sep.join(parts[:parts.index(mark) + 1])
+                    if os.path.realpath(top) != os.path.realpath(base) and os.path.isdir(top) and not os.path.islink(top):
+                        shutil.rmtree(top, ignore_errors=True)
+                        ctx.count("escaped_scratch_copies_removed")
             for how, p in bad[:3]:
                 # classifier: the escaping path is explained by '..' segments kept in a persisted relative path
                 dotdot = ".." in p or has_dotdot
